@@ -184,6 +184,12 @@ pub struct Config {
     /// first instead of last). 0 = the order of the crate's own examples.
     #[serde(default)]
     pub builder_order: u16,
+    /// the reset pin is a zero-sized type (as real HAL pins are) instead of a handle
+    #[serde(default)]
+    pub zst_rst: bool,
+    /// build the generic parallel bus with `From<(pins..)>` instead of `new`
+    #[serde(default)]
+    pub bus_from: bool,
 }
 
 impl Config {
